@@ -29,6 +29,25 @@ Inapplicable(mw, ty) ==
       [] mw = "MergeCoAuthors"    -> "listnp" \in Set(ty.name)
       [] mw = "write_string"      -> FALSE
       [] OTHER -> FALSE
+\* The metadata protocol (spec growth, informational: no listed property states it).  A middleware records what it did
+\* under its own key of the block's parser_metadata and touches no other key; AddEnclosingMiddleware is the one
+\* exception by design: it CONSUMES the record RemoveEnclosingMiddleware left ("removed_enclosing") and writes none.
+\* meta_touched = keys whose value differs between a block of the input and the corresponding block of the result.
+MayTouch(mw) ==
+    CASE mw = "RemoveEnclosingMiddleware" -> {"removed_enclosing"}
+      [] mw = "AddEnclosingMiddleware" -> {"removed_enclosing"}
+      [] mw = "ResolveStringReferencesMiddleware" -> {"ResolveStringReferences"}
+      [] mw \in {"MonthIntMiddleware", "MonthAbbreviationMiddleware", "MonthLongStringMiddleware", "NormalizeFieldKeys"} -> {mw}
+      [] mw = "SortFieldsAlphabeticallyMiddleware" -> {"sorted_fields_alphabetically"}
+      [] mw = "SortFieldsCustomMiddleware" -> {"sorted_fields_custom"}
+      [] mw = "SeparateCoAuthors" -> {"separate_coauthors"}
+      [] mw = "SplitNameParts" -> {"split_name_parts"}
+      [] mw = "MergeNameParts" -> {"merge_name_parts"}
+      [] mw = "MergeCoAuthors" -> {"merge_coauthors"}
+      [] mw = "LatexEncodingMiddleware" -> {"latex_encoding"}
+      [] mw = "LatexDecodingMiddleware" -> {"latex_decoding"}
+      [] OTHER -> {}
+ProtocolOK(e) == "meta_touched" \notin DOMAIN e \/ Set(e.meta_touched) \subseteq MayTouch(e.mw)
 CopyMode(e) == ~e.inplace \/ e.mw \in {"SortBlocksByTypeAndKeyMiddleware", "write_string"}
 Bad(e) ==
     IF ~CopyMode(e) THEN ""                                   \* nothing is demanded of in-place mode
@@ -41,7 +60,9 @@ Bad(e) ==
 Next ==
     \/ /\ tid <= N
        /\ LET e == Trace[tid] bad == Bad(e) IN
-          IF bad = "" THEN TRUE
+          IF bad = "" THEN (IF ProtocolOK(e) THEN TRUE
+                            ELSE PrintT(ToJson([reject |-> e.id, at |-> 1, clause |-> "note:metadata_protocol",
+                                                expected |-> [may_touch |-> MayTouch(e.mw)]])))
           ELSE PrintT(ToJson([reject |-> e.id, at |-> 1, clause |-> bad,
                               expected |-> [shared |-> 0, changed |-> FALSE, raised |-> Inapplicable(e.mw, e.types)]]))
        /\ tid' = tid + 1
